@@ -18,7 +18,7 @@ from common import Report, pick_samples, log
 from genlib import gen_request, generate, DEFAULT_OPTS
 
 FEATURES = ["iface", "impl2", "union", "enum", "scalar", "nesting", "dep_reason", "dep_iface", "input", "oneof",
-            "rootnames", "mutation", "subscription", "extend", "args", "enum_dep", "extend_impl"]
+            "rootnames", "mutation", "subscription", "extend", "args", "enum_dep", "extend_impl", "shadow_roots"]
 
 
 def build(features):
@@ -128,6 +128,19 @@ def build(features):
         types.append(gql.obj(sn, [FieldDef("ticks", "[Int!]!")]))
         roots["subscription"] = sn
         docs.append(("S", Doc([Op("subscription", "Op", [Field("ticks")])])))
+    if "shadow_roots" in f:
+        # an explicit `schema { query: .. }` block that does NOT list a mutation / subscription root, while ordinary
+        # object types happen to be called Mutation / Subscription: operations of those kinds have no root type
+        explicit = True
+        for kind, tname, fld in (("mutation", "Mutation", "bump"), ("subscription", "Subscription", "ticks")):
+            if kind in roots or tname in [t.name for t in types]:
+                continue
+            types.append(gql.obj(tname, [FieldDef(fld, "Int")]))
+            for t in types:
+                if t.name == qn:
+                    t.fields.append(FieldDef("last" + tname, tname))
+            docs[0][1].ops[0].sel = tuple(docs[0][1].ops[0].sel) + (Field("last" + tname, [Field(fld)]),)
+            docs.append((kind[0].upper() + "shadow", Doc([Op(kind, "Op", [Field(fld)])])))
     schema = gql.Schema(types, roots, explicit=explicit, extensions=extensions)
     return schema, docs
 
@@ -221,7 +234,14 @@ def run(tier):
         label0 = {"schema": desc, "operation": dname, "option_set": oi, "sdl": schema.sdl() if len(schema.sdl()) < 2500 else "<long>",
                   "query": ref_j["query"]}
         if ref_r["status"] != "ok":
-            rep.violation("sdl_generation_failed", label0, ref_r.get("msg"))
+            # the SDL rendering refuses this operation (e.g. no root type of that kind): every other rendering of the
+            # same schema has to refuse it too
+            if not dname.endswith("shadow"):
+                rep.violation("sdl_generation_failed", label0, ref_r.get("msg"))
+            for j, r in members[1:]:
+                transitions += 1
+                if r["status"] == "ok":
+                    rep.violation("rendering_accepts_what_sdl_rejects", dict(label0, rendering=j["rendering"]), ref_r.get("msg"))
             continue
         ref_items = None
         for j, r in members[1:]:
